@@ -18,8 +18,11 @@ func init() {
 			r := g.r
 			var viol []string
 			ref := map[string]string{}
-			for _, n := range decoration.RegisteredDecorationNames() {
-				ref[n] = showDecor(decoration.Named(n))
+			for _, n := range builtinNames {
+				ref[n] = builtinDecor[n]
+			}
+			for n, d := range registeredNames {
+				ref[n] = d
 			}
 			names := []string{fmt.Sprintf("c%d-a", c), fmt.Sprintf("c%d-b", c), fmt.Sprintf("C%d-A", c), fmt.Sprintf("c%d\xffz", c), "utf8-light", fmt.Sprintf("c%d é", c)}
 			t := g.do("newtable")
@@ -69,6 +72,19 @@ func init() {
 					}
 					rr := g.do("render " + w)
 					cl, _ := parseRes(rr)
+					for _, kind := range []string{"buffer", "builder", "bufio"} {
+						cl2, f2 := parseRes(g.do("renderbuf " + w + " " + kind))
+						if !known && (cl2 != "err:no-decoration" || (f2["out"] != "-" && f2["out"] != "")) {
+							viol = append(viol, fmt.Sprintf("text table set to unknown decoration %q rendered into a %s: %s", name, kind, cl2))
+						}
+					}
+					if !known {
+						ar := g.do("autorender " + t + " " + hx(name))
+						ca, fa := parseRes(ar)
+						if ca != "err:no-decoration" || fa["res2"] != "err:no-decoration" {
+							viol = append(viol, fmt.Sprintf("auto.Render/RenderTo with unknown style %q did not fail closed: %s / %s", name, ca, fa["res2"]))
+						}
+					}
 					rs := g.do("renderstr " + w)
 					_, f := parseRes(rs)
 					if !known {
@@ -87,6 +103,14 @@ func init() {
 		},
 	}
 }
+
+var builtinDecor = func() map[string]string {
+	m := map[string]string{}
+	for _, n := range builtinNames {
+		m[n] = showDecor(decoration.Named(n))
+	}
+	return m
+}()
 
 // ---------- C19: style strings ----------
 
@@ -130,6 +154,9 @@ func init() {
 			// extend the registry: mostly plain names, sometimes the three hostile classes
 			for i := 0; i < r.n(3); i++ {
 				n := fmt.Sprintf("style%d-%d", c, i)
+				if r.chance(1, 3) {
+					n = fmt.Sprintf("Corp-Style%d-%d", c, i) // plain names may contain upper-case letters
+				}
 				switch r.n(12) {
 				case 0:
 					n = fmt.Sprintf("my.style%d", c)
@@ -156,10 +183,21 @@ func init() {
 			for _, s := range styles {
 				have[s] = true
 			}
-			for _, s := range append([]string{"csv", "html", "json", "markdown"}, decoration.RegisteredDecorationNames()...) {
+			expect := append([]string{"csv", "html", "json", "markdown"}, builtinNames...)
+			for n := range registeredNames {
+				expect = append(expect, n)
+			}
+			for _, s := range expect {
 				if !have[s] {
 					viol = append(viol, fmt.Sprintf("ListStyles() omits %q", s))
 				}
+			}
+			if len(styles) != len(expect) {
+				viol = append(viol, fmt.Sprintf("ListStyles() has %d entries, %d names are registered or built in", len(styles), len(expect)))
+			}
+			// the listing is stable when asked again
+			if again := g.listStyles(); strings.Join(again, "\x00") != strings.Join(styles, "\x00") {
+				viol = append(viol, "ListStyles() differs between two consecutive calls")
 			}
 			render := func(style string) (kind string, class string, out string) {
 				res := g.do("autowrap " + t + " " + hx(style))
